@@ -142,6 +142,14 @@ CHECKS = {
              "cases are executed on real classes rendered from the same table (keyword and positional key), and TLC judges outcome class, every attribute value, the "
              "__post_init__ call count and that it ran after all attributes were set.",
         note=TB, technique="TLA+ declarative vs operational construction rule (TLC); TLC-enumerated cases executed on real hierarchies; TLC-judged", ref="3 C09"),
+    "C10": dict(
+        text="Equality.tla defines the generated __eq__ (instance check + every compare-enabled attribute, bound methods by function, missing only equals missing, no early "
+             "exit) and Python's reflected-first dispatch for subclasses; TLC checks Reflexive, Symmetric, Transitive and Exact over ALL triples of an instance pool covering "
+             "three classes (class, spec subclass, plain subclass) and attribute kinds int / own bound methods / function / class / module / missing at each position, and that the "
+             "pre-fix early-return rule violates them. Real ==, != on all ordered pairs of the pool, sampled triples, deepcopy(x) == x, reconstruction from own attributes and "
+             "repr (missing values, self reference directly and through list/dict, mutual reference, bound method of self, long/nested) are recorded and judged by TLC against "
+             "EqOp / ReprAttrs.",
+        note=TB, technique="TLA+ equality model with dispatch rule (TLC over all triples); real pairs/triples/copies/repr judged by TLC", ref="3 C10"),
 }
 
 PENDING = "check not built yet in this round (see DESIGN.md section 3 for the planned TLA+ module)"
